@@ -41,6 +41,12 @@ func c06Cells(tier string) []Cell {
 			}
 		}
 
+		// a forced refresh (SkipRead) arriving while the key is being updated: whatever it is served was built, never
+		// the old cached value (SyncRead on: the read inside the critical section must honour SkipRead too)
+		for _, path := range []string{"skipWbg", "skipWsu", "skipWbgSR", "skipWsuSR"} {
+			cells = append(cells, Cell{ID: c06Cell{Front: front, Path: path, Caller: "none", Cancel: "never"}.id()})
+		}
+
 		// nested builder scopes: WithTTL(ctx, x, false) opens a private scope, what happens inside it stays there
 		for _, path := range []string{"cold", "bgS"} {
 			for _, caller := range []string{"none", "0", "10s", "1h", "-1s"} {
@@ -151,9 +157,35 @@ func c06WantChain(caller time.Duration, hasCell bool, calls []ttlCall) time.Dura
 	return cur
 }
 
+// c06SkipWaiter: a plain Get and a SkipRead Get on one stale key, all schedules: the SkipRead Get returns a built
+// value (its own build or the one it waited for), never the stale one.
+func c06SkipWaiter(cc c06Cell, env *Env) CellResult {
+	cfg := FCfg{Front: cc.Front, MS: true, FailC: "0", Script: "o", Init: "S",
+		SU: strings.Contains(cc.Path, "su"), SR: strings.HasSuffix(cc.Path, "SR"),
+		Threads: [][]GOp{{{Key: 0}}, {{Key: 0, Skip: true}}}}
+	front := frontNames[cc.Front]
+
+	return exploreF(cfg, env, vsched.Options{PreemptionBound: -1, EnvBound: 0, HBCache: true, Deadline: env.Deadline}, nil, func(h *fh, r *vsched.Result) []Violation {
+		var vs []Violation
+
+		for _, e := range h.log {
+			if e.Kind == "get-end" && e.Name == "skip" && (e.Err != nil || e.Nil || e.Tok.O != "b") {
+				vs = append(vs, Violation{Signature: fmt.Sprintf("C06 %s skipread-served-cached path=%s", front, cc.Path),
+					Detail: fmt.Sprintf("a Get under WithSkipRead returned (%v nil=%v, %v): a forced refresh is answered with a value that was built, not with the cached one", e.Tok, e.Nil, e.Err)})
+			}
+		}
+
+		return vs
+	})
+}
+
 func c06Run(c Cell, env *Env) CellResult {
 	var cc c06Cell
 	_ = json.Unmarshal([]byte(c.ID), &cc)
+
+	if strings.HasPrefix(cc.Path, "skipW") {
+		return c06SkipWaiter(cc, env)
+	}
 
 	res := CellResult{Exhaustive: true, Outcomes: map[string]int{}}
 	callerTTL, hasCell := c06CallerTTL(cc.Caller)
@@ -428,7 +460,7 @@ func init() {
 	Register(&Prop{
 		ID: "C06", Title: "TTL and context travel through Failover as documented",
 		Cells: c06Cells, Run: c06Run,
-		Rule: "grid caller TTL {no cell, 0, 10s, 1h, -1s} x builder behaviour (every sequence of <=2 (quick: 73) / <=3 (thorough: 585) WithTTL(ctx,b,upd) calls, b in {0,5s,2h,-1s}, upd in {true,false}) x path {cold miss, sync update of a stale value, background update, waiter, cold miss and background update with NESTED builder scopes, SkipRead on a fresh entry; SkipRead on an absent / stale / too stale entry and with a failure cached for the key (uncancelled caller only)} " +
+		Rule: "grid caller TTL {no cell, 0, 10s, 1h, -1s} x builder behaviour (every sequence of <=2 (quick: 73) / <=3 (thorough: 585) WithTTL(ctx,b,upd) calls, b in {0,5s,2h,-1s}, upd in {true,false}) x path {cold miss, sync update of a stale value, background update, waiter, cold miss and background update with NESTED builder scopes, SkipRead on a fresh entry; a SkipRead Get next to a plain Get on a stale key (sync / background update, SyncRead on / off); SkipRead on an absent / stale / too stale entry and with a failure cached for the key (uncancelled caller only)} " +
 			"x caller context {never cancelled, cancelled before, cancelled after, carrying a deadline} x 3 front-ends; each case under the scheduler with all schedules (unbounded, HB cached); a recording backend wrapper notes TTL(ctx) of every Write, the builder notes Err/Done/Deadline/Value of its context",
 		Assumptions: []string{
 			"'smallest non-zero' is taken over signed durations (a negative TTL is smaller than any positive one), as the implementation's comparison does",
